@@ -36,65 +36,37 @@ RULE = (
     "tables; distinct by canonical hash; non-trivial = accepted and containing at least one select or instance source"
 )
 
-CHOICE_CANON = {"list name": "list_name", "image": "media::image", "audio": "media::audio", "video": "media::video",
-                "big-image": "media::big-image", "caption": "label", "value": "name"}
-SURVEY_CANON = {
-    "relevant": "bind::relevant", "required": "bind::required", "constraint": "bind::constraint",
-    "calculation": "bind::calculate", "read_only": "bind::readonly", "appearance": "control::appearance",
-}
-
-
-def parse_params(raw: str):
-    """The harness's own copy of parameters_generic.parse (the model takes parsed parameters)."""
-    parts = raw.split(";")
-    if len(parts) == 1:
-        parts = raw.split(",")
-    if len(parts) == 1:
-        parts = raw.split()
-    out = {}
-    for p in parts:
-        k, v = p.split("=")[:2]
-        k = k.lower().strip()
-        out[k] = v.strip() if k in ("label", "value") else v.lower().strip()
-    return out
-
-
-def survey_cells(row: dict):
-    out = []
-    for k, v in row.items():
-        if v in (None, ""):
-            continue
-        if k == "parameters":
-            for pk, pv in parse_params(v).items():
-                out.append(["parameters::" + pk, pv])
-        else:
-            out.append([SURVEY_CANON.get(k, k), str(v)])
-    return out
-
-
-def choice_cells(row: dict):
-    return [[CHOICE_CANON.get(k, k), str(v)] for k, v in row.items() if v not in (None, "")]
+def cells(row: dict):
+    """A sheet row as typed: ordered (header, cell) pairs, empty cells left out (as the backends do)."""
+    return [[k, str(v)] for k, v in row.items() if v not in (None, "")]
 
 
 def model_input(form: dict) -> dict:
+    """The workbook as typed: raw headers, raw `parameters` cells.  Header dealiasing, parameter parsing and
+    cell cleaning are the model's (Pyxv.Headers / Pyxv.Controls / Pyxv.Choices.cleanCell)."""
     wb = impl.wb_dict(form)
-    ch_cols = [CHOICE_CANON.get(c, c) for c in (list(wb["choices_header"][0]) if wb.get("choices_header") else [])]
+
+    def cols(sheet):
+        h = wb.get(sheet + "_header")
+        return list(h[0]) if h else []
+
     ext = form.get("external_choices")
     st = (form.get("settings") or [{}])[0]
     return {
         "root": "data",
-        "choices": [choice_cells(r) for r in form.get("choices", [])],
-        "choices_cols": ch_cols,
+        "choices": [cells(r) for r in form.get("choices", [])],
+        "choices_cols": cols("choices"),
         "allow_dup": st.get("allow_choice_duplicates"),
-        "survey": [survey_cells(r) for r in form["survey"]],
-        "ext_header": list(wb["external_choices_header"][0]) if ext is not None and wb.get("external_choices_header") else [],
-        "ext_rows": None if ext is None else [[[k, str(v)] for k, v in r.items() if v not in (None, "")] for r in ext],
+        "survey": [cells(r) for r in form["survey"]],
+        "survey_cols": cols("survey"),
+        "ext_header": cols("external_choices") if ext is not None else [],
+        "ext_rows": None if ext is None else [cells(r) for r in ext],
     }
 
 
 def canon_obs(o: dict) -> dict:
     return {
-        "instances": [{"id": i["id"], "src": i["src"], "items": i["items"]} for i in o["instances"]],
+        "instances": [{"id": i["id"], "src": i["src"], "items": i["items"], "xml": i.get("xml")} for i in o["instances"]],
         "selects": o["selects"],
         "csv": o["csv"],
         "csv_text": o["csv_text"],
@@ -149,6 +121,9 @@ def form_case(ctx, form):
         nontrivial = bool(obs["selects"] or obs["instances"])
         for s in obs["selects"]:
             ctx.count("select:" + ("inline" if s["items"] else "query" if s["query"] else "itemset"))
+            ns = (s["itemset"] or {}).get("nodeset") or s["query"] or ""
+            if "../" in ns:
+                ctx.count("select:relative-ref" + ("-current" if "current()/.." in ns else ""))
         ctx.count("instances", len(obs["instances"]))
         if obs["csv"] is not None:
             ctx.count("itemsets-csv")
@@ -332,6 +307,42 @@ def order_probe(ctx, form=None):
     ctx.record(case, True)
 
 
+def norm_attr(v: str) -> str:
+    """XML attribute-value normalisation of a literal value (TAB, LF, CR -> space)."""
+    return v.replace("\r\n", " ").replace("\t", " ").replace("\n", " ").replace("\r", " ")
+
+
+def ws_listname_case(ctx, form=None):
+    """Directed family (F42): list names that differ only in the kind of a whitespace character.  The ids are
+    written raw into `<instance id=…>`; a reader normalises them, so the document can hold the same id twice."""
+    rng = ctx.rng
+    if form is None:
+        base = rng.choice(["a", "my list", "x"])
+        ws = rng.sample([" ", "\t", "\n"], 2)
+        names = [base + w + "b" for w in ws] if rng.random() < 0.8 else [base + " b", base + "_b"]
+        form = {"survey": [{"type": "text", "name": "q", "label": "Q"}],
+                "choices": [{"list_name": n, "name": "c%d" % i, "label": "L"} for i, n in enumerate(names)]}
+    case = {"form": form, "probe": "ws-listname"}
+    r = impl.run(form)
+    ctx.count("probe:ws-listname")
+    if r["ok"]:
+        ids = [i["id"] for i in c09obs.observe(r["xform"], None)["instances"]]
+        if len(set(ids)) != len(ids):
+            ctx.fail(Failure("instance-ids", f"instance ids are not unique in the document as read: {ids}", case,
+                             extra={"site": "survey._generate_static_instances"}))
+    ctx.record(case, True)
+
+
+def match_f42(f: Failure) -> bool:
+    """Duplicate ids in the document that come from two list names which differ as typed and coincide after
+    attribute-value normalisation (nothing else makes two static instances share an id)."""
+    if f.kind != "instance-ids":
+        return False
+    names = list(dict.fromkeys(r.get("list_name") for r in (f.case.get("form") or {}).get("choices", []) if r.get("list_name")))
+    normed = [norm_attr(n) for n in names]
+    return len(set(normed)) < len(names)
+
+
 def explore(ctx, factor, bs):
     rng = ctx.rng
     n = ctx.pick(2000, 40000) * factor
@@ -346,6 +357,8 @@ def explore(ctx, factor, bs):
         group_case(ctx)
     for i in range(ctx.pick(20, 100)):
         order_probe(ctx)
+    for i in range(ctx.pick(10, 50)):
+        ws_listname_case(ctx)
     ev = ctx.dist
     total = sum(v for k, v in ev.items() if k.startswith("impl:"))
     unsup = sum(v for k, v in ev.items() if k.startswith("impl:") and k.endswith("model:unsupported"))
@@ -370,7 +383,7 @@ def match_f41(f: Failure) -> bool:
     return any(isinstance(v, str) and any(ch in v for ch in SMART_CHARS) for r in rows for v in r.values())
 
 
-MATCHERS = {"F41-smart-quotes-in-choice-cells": match_f41}
+MATCHERS = {"F41-smart-quotes-in-choice-cells": match_f41, "F42-list-names-whitespace-ids": match_f42}
 
 
 def replay(ctx, payload, bs):
@@ -378,7 +391,9 @@ def replay(ctx, payload, bs):
     case = payload.get("case") or (payload.get("correspondence_mismatches") or [{}])[0].get("case")
     if not case:
         return bs.proof_ok and bs.tables_ok
-    if case.get("probe") == "set-order":
+    if case.get("probe") == "ws-listname":
+        ws_listname_case(ctx, case["form"])
+    elif case.get("probe") == "set-order":
         order_probe(ctx, case["form"])
     elif "form" in case:
         form_case(ctx, case["form"])
